@@ -9,11 +9,150 @@ use serde_json::json;
 
 pub struct C09 {
     tier: Tier,
+    forms: Vec<iced_x86::Code>,
+    base: Vec<Vec<u8>>,
 }
 
 impl C09 {
     pub fn new(tier: Tier) -> C09 {
-        C09 { tier }
+        let base: Vec<Vec<u8>> = crate::hw::REGIONS
+            .iter()
+            .map(|r| {
+                let mut v = Vec::with_capacity(r.len);
+                let mut a = r.start;
+                while v.len() < r.len {
+                    v.extend_from_slice(&crate::hw::base_cell(a).to_le_bytes());
+                    a += 8;
+                }
+                v
+            })
+            .collect();
+        C09 { tier, forms: crate::hw::gen::all_forms(), base }
+    }
+}
+
+impl C09 {
+    /// "every instruction form that touches memory": one encoding of an implemented form with an explicit memory
+    /// operand, steered into the data region of the engine-A layout, is stepped under each of the 8 permission
+    /// masks of that region. What the operand needs (read / write / both) comes from iced's operand-access table,
+    /// not from the subject. Operands and counts are often steered to value-preserving ones (count 0, source 0 or
+    /// all-ones): a store that would not change the byte is still a store.
+    fn form_sweep(&self, k: u64, rng: &mut Rng, col: &mut Collector) {
+        use crate::hw::gen::*;
+        use crate::hw::*;
+        use iced_x86::{InstructionInfoFactory, OpAccess, OpKind, Register};
+        let rip = run::CODE_RIP;
+        for _ in 0..16 {
+            let code = *rng.pick(&self.forms);
+            let gopts = GenOpts { mem: MemMode::Always, addr32: true, seg: rng.below(4) == 0, imm: if rng.below(3) == 0 { Some(*rng.pick(&[0u64, 0, u64::MAX, 0x40, 0x20, 1])) } else { None } };
+            let Some(bytes) = build_g1(rng, code, rip, &gopts) else { continue };
+            let Some(ins) = decode(&bytes, rip) else { continue };
+            if !has_mem_operand(&ins) || ins.mnemonic() == iced_x86::Mnemonic::Lea {
+                continue;
+            }
+            let target = *rng.pick(&[Target::DataMid, Target::DataMid, Target::DataAligned16, Target::FirstByte, Target::LastValid]);
+            let st = steer(rng, &ins, &bytes, rip, &SteerOpts { target: Some(target), flags: None, rcx: None });
+            if st.invalid {
+                continue;
+            }
+            let mut t = st.trial;
+            // value-preserving operands: registers that do not take part in the address become 0 or all-ones
+            let vp = rng.below(3);
+            if vp != 0 {
+                let (b, i) = (ins.memory_base().full_register(), ins.memory_index().full_register());
+                for (gi, r) in GPR64.iter().enumerate() {
+                    if *r != b && *r != i && *r != Register::RSP {
+                        t.gpr[gi] = if vp == 1 { 0 } else { u64::MAX };
+                    }
+                }
+            }
+            // implicit stack accesses must stay in the (always RW) stack region
+            if ins.is_stack_instruction() && !(t.gpr[4] >= STACK + 0x100 && t.gpr[4] < STACK + STACK_LEN as u64 - 0x100) {
+                continue;
+            }
+            let Some(ea) = arch_ea(&ins, &t) else { continue };
+            let size = ins.memory_size().size() as u64;
+            if size == 0 || ea < DATA || ea.saturating_add(size) > DATA + DATA_LEN as u64 {
+                continue;
+            }
+            let mut fac = InstructionInfoFactory::new();
+            let info = fac.info(&ins);
+            let mut need = 0u32;
+            let mut conditional = false;
+            for oi in 0..ins.op_count() {
+                if ins.op_kind(oi) == OpKind::Memory {
+                    match info.op_access(oi) {
+                        OpAccess::Read => need |= 1,
+                        OpAccess::Write => need |= 2,
+                        OpAccess::ReadWrite => need |= 3,
+                        OpAccess::None | OpAccess::NoMemAccess => {}
+                        _ => conditional = true,
+                    }
+                }
+            }
+            if conditional || need == 0 {
+                continue;
+            }
+            // mirror memory = base + patches + code
+            let mut pre = self.base.clone();
+            let mut apply = |pre: &mut Vec<Vec<u8>>, addr: u64, b: &[u8]| {
+                if let Some(ri) = region_of(addr) {
+                    let off = (addr - REGIONS[ri].start) as usize;
+                    let n = b.len().min(REGIONS[ri].len - off);
+                    pre[ri][off..off + n].copy_from_slice(&b[..n]);
+                }
+            };
+            for (a, b) in &t.patches {
+                apply(&mut pre, *a, b);
+            }
+            apply(&mut pre, t.rip, &t.code);
+            let desc = format!("{} [{}] operand at {:#x} (+{}), needs {}", ins, hex(&t.code), ea, size, ["-", "R", "W", "RW"][need as usize]);
+            col.publish("form_sweep", &desc);
+            let run = |mask: u32| -> Option<(Call<bool>, bool)> {
+                let mut ax = catch(|| build_mirror(&t, &pre)).ok()?.ok()?;
+                catch(|| ax.mem_prot(DATA, mask)).ok()?.ok()?;
+                let r = call(|| block_on(ax.step()));
+                let mut unchanged = true;
+                ax.verif_for_each_area(|start, _acc, data| {
+                    if let Some(ri) = REGIONS.iter().position(|r| r.start == start) {
+                        if data != &pre[ri][..] {
+                            unchanged = false;
+                        }
+                    }
+                });
+                Some((r, unchanged))
+            };
+            // the instruction must work at all (permission 7): otherwise nothing to learn
+            let Some((full, _)) = run(7) else { continue };
+            if !full.is_ok() {
+                col.count("form_sweep_not_executable_with_rwx", 1);
+                continue;
+            }
+            let fail = |col: &mut Collector, rule: &str, detail: String| {
+                col.violation_case(&format!("form_sweep:{}:{:?}", rule, ins.code()), k, format!("{} :: {}", desc, detail), json!({"instruction": format!("{}", ins), "bytes": hex(&t.code), "needs": need, "problem": detail}));
+            };
+            for mask in 0..7u32 {
+                let Some((r, unchanged)) = run(mask) else { continue };
+                col.eval(1);
+                if r.is_panic() {
+                    return fail(col, "panic", format!("mask {}: {}", mask, r.describe()));
+                }
+                if need & !mask != 0 {
+                    if r.is_ok() {
+                        return fail(col, "denied-access-succeeded", format!("permission mask {} lacks {} but step() returned Ok", mask, ["-", "R", "W", "RW"][(need & !mask) as usize]));
+                    }
+                    if !unchanged {
+                        return fail(col, "denied-access-changed-memory", format!("permission mask {}: step() failed but memory changed", mask));
+                    }
+                } else if mask & 1 != 0 && !r.is_ok() {
+                    // masks that paging can express and that grant everything the operand needs
+                    return fail(col, "permitted-access-failed", format!("permission mask {} grants what the operand needs, but {}", mask, r.describe()));
+                }
+                col.distinct_key(&format!("sweep|{:?}|{}|{}", ins.mnemonic(), need, mask));
+            }
+            col.count("form_sweep_instructions", 1);
+            col.set_insert("form_sweep_forms", &format!("{:?}", ins.code()));
+        }
     }
 }
 
@@ -503,7 +642,7 @@ impl C09 {
 
 impl Monitor for C09 {
     fn total_cases(&self) -> u64 {
-        2 + elfgen::bundled().len() as u64 + self.tier.pick(6_000, 200_000)
+        2 + elfgen::bundled().len() as u64 + self.tier.pick(40_000, 1_500_000)
     }
     fn run_case(&mut self, k: u64, rng: &mut Rng, col: &mut Collector) {
         let nb = elfgen::bundled().len() as u64;
@@ -514,6 +653,8 @@ impl Monitor for C09 {
         } else if k < 2 + nb {
             let (name, bytes) = &elfgen::bundled()[(k - 2) as usize];
             self.elf_case(k, rng, col, bytes, name);
+        } else if k % 3 == 1 {
+            self.form_sweep(k, rng, col);
         } else if k % 3 == 0 {
             let spec = elfgen::gen_spec(rng, false);
             let bytes = elfgen::write_elf(&spec);
